@@ -23,57 +23,165 @@ type byteField struct {
 // function itself (set by byteWrites, consulted by layoutIs)
 var deepFields = map[string]bool{}
 
+// fieldBase: the buffer (allocation) each recorded field was written into, by "function|field"
+var fieldBase = map[string]ssa.Value{}
+
+// bufferOf: the allocation behind a (possibly re-sliced) byte buffer value.
+func bufferOf(v ssa.Value) ssa.Value {
+	for i := 0; i < 6; i++ {
+		switch x := v.(type) {
+		case *ssa.Slice:
+			v = x.X
+			continue
+		case *ssa.UnOp:
+			if x.Op == token.MUL {
+				v = x.X
+				continue
+			}
+		}
+		break
+	}
+	return v
+}
+
 func (b byteField) String() string { return fmt.Sprintf("[%s:%s]%s(%s)", b.lo, b.hi, b.how, b.what) }
 
 func offShape(v ssa.Value) string {
 	if v == nil {
 		return ""
 	}
-	if k, ok := constInt(v); ok {
-		return fmt.Sprint(k)
-	}
-	return shape(v, 3)
+	return linOff(v).String()
 }
 
-// sliceBounds returns base and bounds of a slice expression value (or the value itself with open bounds).
-func sliceBounds(v ssa.Value) (base ssa.Value, lo, hi string) {
-	if sl, ok := v.(*ssa.Slice); ok {
-		// a slice of a slice with constant bounds is a slice of the underlying buffer: data := raw[:16];
-		// data[8:] is raw[8:16]
-		if inner, ok := sl.X.(*ssa.Slice); ok && !isMakeSlice(inner) {
-			ib, ilo, ihi := sliceBounds(inner)
-			atoi := func(s string) (int64, bool) {
-				if s == "" {
-					return 0, true
-				}
-				n, err := strconv.ParseInt(s, 10, 64)
-				return n, err == nil
+// offLin: an offset as a linear form k + sum coef*atom, so that 36+len(p) and (32+len(p)+32)-32+4 read alike.
+type offLin struct {
+	k     int64
+	atoms map[string]int64
+}
+
+func (o offLin) add(p offLin, sign int64) offLin {
+	r := offLin{k: o.k + sign*p.k, atoms: map[string]int64{}}
+	for a, c := range o.atoms {
+		r.atoms[a] += c
+	}
+	for a, c := range p.atoms {
+		r.atoms[a] += sign * c
+	}
+	for a, c := range r.atoms {
+		if c == 0 {
+			delete(r.atoms, a)
+		}
+	}
+	return r
+}
+
+func (o offLin) isConst() bool { return len(o.atoms) == 0 }
+
+func (o offLin) String() string {
+	if o.isConst() {
+		return fmt.Sprint(o.k)
+	}
+	var as []string
+	for a := range o.atoms {
+		as = append(as, a)
+	}
+	sort.Strings(as)
+	var parts []string
+	if o.k != 0 {
+		parts = append(parts, fmt.Sprint(o.k))
+	}
+	for _, a := range as {
+		switch c := o.atoms[a]; {
+		case c == 1:
+			parts = append(parts, a)
+		case c == -1:
+			parts = append(parts, "-"+a)
+		default:
+			parts = append(parts, fmt.Sprintf("%d*%s", c, a))
+		}
+	}
+	if len(parts) == 1 {
+		return parts[0]
+	}
+	return "(" + strings.Join(parts, "+") + ")"
+}
+
+func linOff(v ssa.Value) offLin {
+	if v == nil {
+		return offLin{}
+	}
+	v = stripConv(v)
+	if k, ok := constInt(v); ok {
+		return offLin{k: k}
+	}
+	if bo, ok := v.(*ssa.BinOp); ok && isInteger(bo.Type()) {
+		switch bo.Op {
+		case token.ADD:
+			return linOff(bo.X).add(linOff(bo.Y), 1)
+		case token.SUB:
+			return linOff(bo.X).add(linOff(bo.Y), -1)
+		case token.MUL:
+			x, y := linOff(bo.X), linOff(bo.Y)
+			if y.isConst() {
+				x, y = y, x
 			}
-			if a, ok1 := atoi(ilo); ok1 {
-				l, okL := constInt(sl.Low)
-				if sl.Low == nil {
-					l, okL = 0, true
-				}
-				if okL {
-					alo := fmt.Sprint(a + l)
-					if a+l == 0 && ilo == "" && sl.Low == nil {
-						alo = ""
+			if x.isConst() {
+				r := offLin{k: x.k * y.k, atoms: map[string]int64{}}
+				for a, c := range y.atoms {
+					if x.k*c != 0 {
+						r.atoms[a] = x.k * c
 					}
-					ahi := ihi
-					if sl.High != nil {
-						if h, ok := constInt(sl.High); ok {
-							ahi = fmt.Sprint(a + h)
-						} else {
-							return sl.X, offShape(sl.Low), offShape(sl.High)
-						}
-					}
-					return ib, alo, ahi
 				}
+				return r
 			}
 		}
-		return sl.X, offShape(sl.Low), offShape(sl.High)
 	}
-	return v, "", ""
+	return offLin{atoms: map[string]int64{shape(v, 2): 1}}
+}
+
+// sliceBounds returns base and bounds of a slice expression value (or the value itself with open bounds). A
+// slice of a slice is a slice of the underlying buffer: data := raw[4:]; data[8:n] is raw[12:4+n].
+func sliceBounds(v ssa.Value) (base ssa.Value, lo, hi string) {
+	b, l, h, hasLo, hasHi := sliceBoundsLin(v)
+	if hasLo {
+		lo = l.String()
+	}
+	if hasHi {
+		hi = h.String()
+	}
+	return b, lo, hi
+}
+
+func sliceBoundsLin(v ssa.Value) (base ssa.Value, lo, hi offLin, hasLo, hasHi bool) {
+	sl, ok := v.(*ssa.Slice)
+	if !ok {
+		return v, offLin{}, offLin{}, false, false
+	}
+	if sl.Low != nil {
+		lo, hasLo = linOff(sl.Low), true
+	}
+	if sl.High != nil {
+		hi, hasHi = linOff(sl.High), true
+	}
+	base = sl.X
+	if inner, ok := sl.X.(*ssa.Slice); ok && !isMakeSlice(inner) {
+		ib, ilo, ihi, iHasLo, iHasHi := sliceBoundsLin(inner)
+		base = ib
+		if iHasLo {
+			if hasLo {
+				lo = lo.add(ilo, 1)
+			} else {
+				lo, hasLo = ilo, true
+			}
+			if hasHi {
+				hi = hi.add(ilo, 1)
+			}
+		}
+		if !hasHi && iHasHi {
+			hi, hasHi = ihi, true
+		}
+	}
+	return
 }
 
 // byteWrites lists the writes into byte buffers in f: PutUintN(b[lo:hi], x), copy(b[lo:hi], x), b[i] = x.
@@ -120,6 +228,7 @@ func srcShape(v ssa.Value) string {
 
 func (c *Ctx) byteWritesOf(f *ssa.Function) []byteField {
 	var out []byteField
+	byteStores := map[int64]ssa.Value{}
 	// buffers grown from length 0 by appends of constant-size pieces (make([]byte, 0, N);
 	// b = binary.LittleEndian.AppendUint32(b, x); b = append(b, arr[:]...)): each piece lands at the
 	// running length, which is a constant - the same layout as PutUint32(b[:4], x); copy(b[4:36], arr[:])
@@ -178,21 +287,67 @@ func (c *Ctx) byteWritesOf(f *ssa.Function) []byteField {
 					end = "BE"
 				}
 				bits := q[strings.LastIndex(q, "PutUint")+7:]
-				_, lo, hi := sliceBounds(x.Call.Args[1])
-				out = append(out, byteField{lo, hi, end + bits, srcShape(x.Call.Args[2])})
+				base, lo, hi := sliceBounds(x.Call.Args[1])
+				what := srcShape(x.Call.Args[2])
+				// a computed value is also shown as a linear form, so that len+32+32 and 32+len+32 read alike
+				if lf := linOff(x.Call.Args[2]); !lf.isConst() && (lf.k != 0 || len(lf.atoms) > 1) {
+					what += "=" + lf.String()
+				}
+				bf := byteField{lo, hi, end + bits, what}
+				out = append(out, bf)
+				fieldBase[fnName(f)+"|"+bf.String()] = bufferOf(base)
 			}
 			if b, ok := x.Call.Value.(*ssa.Builtin); ok && b.Name() == "copy" {
-				_, lo, hi := sliceBounds(x.Call.Args[0])
-				out = append(out, byteField{lo, hi, "copy", srcShape(x.Call.Args[1])})
+				base, lo, hi := sliceBounds(x.Call.Args[0])
+				bf := byteField{lo, hi, "copy", srcShape(x.Call.Args[1])}
+				out = append(out, bf)
+				fieldBase[fnName(f)+"|"+bf.String()] = bufferOf(base)
+			}
+			// a stream cipher writing its output straight into a part of the buffer: XORKeyStream(buf[lo:hi], src)
+			// places (the encryption of) src there, like copy(buf[lo:hi], encrypted)
+			if x.Call.IsInvoke() && x.Call.Method.Name() == "XORKeyStream" && len(x.Call.Args) == 2 {
+				if dst, ok := x.Call.Args[0].(*ssa.Slice); ok && x.Call.Args[0] != x.Call.Args[1] && (dst.Low != nil || dst.High != nil) {
+					_, lo, hi := sliceBounds(dst)
+					out = append(out, byteField{lo, hi, "copy", ""})
+				}
 			}
 		case *ssa.Store:
 			if ia, ok := x.Addr.(*ssa.IndexAddr); ok && isByte(x.Val.Type()) {
 				if k, ok := constInt(ia.Index); ok {
-					out = append(out, byteField{fmt.Sprint(k), fmt.Sprint(k + 1), "byte", srcShape(x.Val)})
+					// (a byte assigned and then updated in place, b[0] = tag; b[0] |= flag, is one field)
+					if _, again := byteStores[k]; !again {
+						out = append(out, byteField{fmt.Sprint(k), fmt.Sprint(k + 1), "byte", srcShape(x.Val)})
+					}
+					byteStores[k] = x.Val
 				}
 			}
 		}
 	})
+	// a 16-bit value written big-endian by hand: b[k] = byte(x>>8); b[k+1] = byte(x)  is  PutUint16(b[k:k+2], x)
+	for k, hi := range byteStores {
+		lo, ok := byteStores[k+1]
+		if !ok {
+			continue
+		}
+		sh, ok := stripConv(hi).(*ssa.BinOp)
+		if !ok || sh.Op != token.SHR {
+			continue
+		}
+		if n, ok := constInt(sh.Y); !ok || n != 8 {
+			continue
+		}
+		if stripConv(sh.X) != stripConv(lo) {
+			continue
+		}
+		var kept []byteField
+		for _, w := range out {
+			if w.how == "byte" && (w.lo == fmt.Sprint(k) || w.lo == fmt.Sprint(k+1)) {
+				continue
+			}
+			kept = append(kept, w)
+		}
+		out = append(kept, byteField{fmt.Sprint(k), fmt.Sprint(k + 2), "BE16", srcShape(stripConv(lo))})
+	}
 	return out
 }
 
@@ -249,8 +404,27 @@ func (c *Ctx) layoutIs(rule, key string, f *ssa.Function, got []byteField, want 
 			missing = append(missing, w.String())
 		}
 	}
+	// the buffer the layout is about: the one the matched fields were written into; writes into other buffers of
+	// the same function (a key, a nonce built with copy) are not fields of this layout
+	var main ssa.Value
+	votes := map[ssa.Value]int{}
+	for i, g := range got {
+		if used[i] {
+			if b := fieldBase[fnName(f)+"|"+g.String()]; b != nil {
+				votes[b]++
+				if main == nil || votes[b] > votes[main] {
+					main = b
+				}
+			}
+		}
+	}
 	var extra []string
 	for i, g := range got {
+		if !used[i] && main != nil {
+			if b := fieldBase[fnName(f)+"|"+g.String()]; b != nil && b != main {
+				continue
+			}
+		}
 		// writes of helpers that are not part of this layout (a helper building its own small buffer) are not
 		// this function's fields; a helper's write counts when it supplies a field the layout asks for
 		if !used[i] && !deepFields[fnName(f)+"|"+g.String()] {
@@ -515,12 +689,53 @@ func (c *Ctx) assembled(f *ssa.Function, v ssa.Value) []string {
 				v = cl.Call.Args[0]
 				continue
 			}
+			// b = binary.BigEndian.AppendUint32(b, x): the same piece as a 4-byte buffer filled by PutUint32 and appended
+			if q := callQName(&cl.Call); strings.HasPrefix(q, "encoding/binary.") && strings.Contains(q, ".AppendUint") {
+				vals = append([]ssa.Value{cl}, vals...)
+				v = cl.Call.Args[1]
+				continue
+			}
+		}
+		// an empty initial buffer contributes nothing (var b []byte / make([]byte, 0, n) in front of appends)
+		if len(vals) > 0 {
+			if cst, ok := v.(*ssa.Const); ok && cst.Value == nil {
+				break
+			}
+			if mk, ok := v.(*ssa.MakeSlice); ok {
+				if k, ok := constInt(mk.Len); ok && k == 0 {
+					break
+				}
+			}
 		}
 		vals = append([]ssa.Value{v}, vals...)
 		break
 	}
 	var out []string
 	for _, x := range vals {
+		if cl, ok := x.(*ssa.Call); ok {
+			if q := callQName(&cl.Call); strings.HasPrefix(q, "encoding/binary.") && strings.Contains(q, ".AppendUint") {
+				end := "LE"
+				if strings.Contains(q, "bigEndian") {
+					end = "BE"
+				}
+				bits := q[strings.LastIndex(q, "AppendUint")+10:]
+				n, _ := strconv.Atoi(bits)
+				ts, root := convChain(cl.Call.Args[2])
+				rs := shape(root, 2)
+				if _, fn, ok := fieldOfLoad(root); ok {
+					rs = fn
+				}
+				if c2 := callOf(root); c2 != nil {
+					if bi, ok := c2.Call.Value.(*ssa.Builtin); ok && bi.Name() == "len" && len(c2.Call.Args) == 1 {
+						if _, fn, ok := fieldOfLoad(c2.Call.Args[0]); ok {
+							rs = "len(." + fn + ")"
+						}
+					}
+				}
+				out = append(out, fmt.Sprintf("buf%d{%s%s[:](%s %s)}", n/8, end, bits, strings.Join(ts, "<-"), rs))
+				continue
+			}
+		}
 		out = append(out, c.describePiece(f, x))
 	}
 	return out
